@@ -63,6 +63,7 @@ def run(repo, rep, tier):
     _names(repo, rep)
     _messages(repo, rep)
     _attributes(repo, rep)
+    L.state_rule(repo, rep)
 
 
 def _translate(repo, rep):
